@@ -212,6 +212,47 @@ func nameTree(c st.ConfigDistribution) string {
 	return s + ")"
 }
 
+// blame maps the library frame of a panic to the registered family whose code
+// it is ("statistics/scalarDistribution.(*Mixture).GetParameters" ->
+// "scalar:mixture distribution", reader): when a mutation renames a NESTED
+// distribution, the decoder at fault is the one of the nested family, whatever
+// wrapper it sits in.
+func blame(frame string) (string, string) {
+	i := strings.Index(frame, "Distribution.(*")
+	if i < 0 {
+		return "", ""
+	}
+	j := strings.LastIndex(frame[:i], "/")
+	pkg := frame[j+1 : i+len("Distribution")]
+	rest := frame[i+len("Distribution.(*"):]
+	k := strings.Index(rest, ")")
+	if k < 0 {
+		return "", ""
+	}
+	want := "*" + pkg + "." + rest[:k]
+	var names []string
+	kind := ""
+	for n, x := range st.ScalarPdfRegistry {
+		if reflect.TypeOf(x).String() == want {
+			names, kind = append(names, n), "Scalar"
+		}
+	}
+	for n, x := range st.VectorPdfRegistry {
+		if reflect.TypeOf(x).String() == want {
+			names, kind = append(names, n), "Vector"
+		}
+	}
+	for n, x := range st.MatrixPdfRegistry {
+		if reflect.TypeOf(x).String() == want {
+			names, kind = append(names, n), "Matrix"
+		}
+	}
+	if len(names) != 1 {
+		return "", ""
+	}
+	return names[0], "Import" + kind + "PdfConfig"
+}
+
 func shapeOf(d any) string {
 	switch x := d.(type) {
 	case interface{ Dims() (int, int) }:
@@ -345,6 +386,12 @@ func malformedConfigCase(cs *fw.Case) {
 	if msg != "" {
 		cs.Cover(monitor + ":outcome:corrupt")
 		w["outcome"] = "corrupt"
+		// only when that family is really named by a nested distribution of the
+		// document (Chmm / Hhmm run the code of the embedded Hmm themselves)
+		if fam, rd := blame(msg); fam != "" && fam != in.Family && class != "parameters" && bytes.Contains(mut, []byte(`"`+fam+`"`)) {
+			w["outer_family"] = in.Family
+			routine, class = fam+"/"+rd, "as-nested-distribution"
+		}
 		cs.Violation(sig(monitor, routine, class, "not-rejected"), "reader accepts the configuration without error but the distribution is unusable: "+msg, w)
 		return
 	}
